@@ -118,10 +118,11 @@ SPARSE_MAKERS = {'csr_matrix', 'csc_matrix', 'coo_matrix', 'lil_matrix', 'diags'
                  'tocsr', 'tocsc', 'tocoo', 'tolil', 'get_adjacency', 'bipartite2undirected', 'bipartite2directed',
                  'directed2undirected', 'get_membership', 'normalize', 'get_laplacian', 'random'}
 # expressions known to evaluate to an index *array* (so that x[expr] is advanced indexing: a copy)
-INDEX_ARRAY_MAKERS = {'argsort', 'where', 'flatnonzero', 'nonzero', 'arange', 'array', 'unique', 'argpartition', 'permutation', 'astype',
-                      'argwhere', 'isin', 'ravel', 'choice', 'zeros', 'ones', 'logical_and', 'logical_or', 'logical_not', 'isnan',
-                      'hstack', 'concatenate', 'sort', 'lexsort', 'asarray', 'tolist', 'list', 'sorted', 'setdiff1d', 'intersect1d',
-                      'union1d', 'repeat', 'full', 'get_index'}
+INDEX_ARRAY_MAKERS = {'argsort', 'where', 'flatnonzero', 'nonzero', 'arange', 'unique', 'argpartition', 'permutation',
+                      'argwhere', 'isin', 'zeros', 'ones', 'hstack', 'concatenate', 'sort', 'lexsort', 'tolist', 'list', 'sorted',
+                      'setdiff1d', 'intersect1d', 'union1d', 'repeat', 'full', 'get_index'}
+# ... only when called with size= (a scalar otherwise: x[i] is then a view)
+INDEX_ARRAY_MAKERS_WITH_SIZE = {'choice', 'randint', 'integers'}
 
 
 # ---- Cython -> Python ----------------------------------------------------------------------------------------
@@ -238,21 +239,19 @@ class FnInfo:
         self.scalar_params = set()
         self.sparse_params = set()
         self.array_params = set()
+        self.dict_params = set()
         allp = a.posonlyargs + a.args + a.kwonlyargs
         defaults = [None] * (len(a.posonlyargs + a.args) - len(a.defaults)) + list(a.defaults) + list(a.kw_defaults)
         for p, d in zip(allp, defaults):
             ann = ast.unparse(p.annotation) if p.annotation is not None else ''
             if ('csr_matrix' in ann or 'sparse' in ann) and 'ndarray' not in ann:
                 self.sparse_params.add(p.arg)
-            if 'ndarray' in ann and 'int' not in ann.replace('Union', ''):
+            if 'ndarray' in ann and 'int' not in ann.replace('Union', '') and 'dict' not in ann.lower() and 'list' not in ann.lower():
                 self.array_params.add(p.arg)
+            if ('dict' in ann.lower() or 'list' in ann.lower()) and 'ndarray' not in ann:
+                self.dict_params.add(p.arg)
             if ann and all(t.strip() in SCALAR_ANN or t.strip() == 'None' for t in
                            re.split(r'[\[\],|]| or ', ann.replace('Optional', '').replace('Union', '')) if t.strip()):
-                self.scalar_params.add(p.arg)
-            elif not ann and isinstance(d, ast.Constant) and d.value is not None and not isinstance(d.value, (bytes,)):
-                self.scalar_params.add(p.arg)
-            elif isinstance(d, ast.Constant) and isinstance(d.value, (bool, int, float, str)) and 'ndarray' not in ann \
-                    and 'matrix' not in ann and 'dict' not in ann.lower() and 'Iterable' not in ann:
                 self.scalar_params.add(p.arg)
         self.writes = set()          # parameter indices this function may write
         self.ret_alias = set()       # parameter indices its result may share memory with
@@ -278,6 +277,7 @@ class Table:
         self.unparsed = []
         self.hot_attrs = {}        # class -> attributes written in place by some method of its family
         self.exported_classes = set()
+        self.module_globals = {}   # module -> names assigned at module level
 
     def add(self, fn):
         self.fns.append(fn)
@@ -344,8 +344,8 @@ class Table:
 
 
 PUBLIC_METHODS = ('fit', 'fit_predict', 'fit_transform', 'fit_predict_proba', 'predict', 'predict_proba', 'transform')
-INTERNAL_PREFIXES = ('sknetwork/gnn/optimizer', 'sknetwork/gnn/base_layer', 'sknetwork/gnn/base_activation', 'sknetwork/log',
-                     'sknetwork/data/')
+ALSO_PUBLIC = ('__init__', '__cinit__', '__call__')
+INTERNAL_PREFIXES = ()
 
 
 def exported_names(pkg):
@@ -380,6 +380,13 @@ def add_module(table, tree, mod, rel, exported, internal):
             if n.level == 0 and n.module and not n.module.startswith('sknetwork'):
                 for a in n.names:
                     ext.add(a.asname or a.name)
+    g = table.module_globals.setdefault(mod, set())
+    for n in tree.body:
+        if isinstance(n, (ast.Assign, ast.AnnAssign, ast.AugAssign)):
+            for t in (n.targets if isinstance(n, ast.Assign) else [n.target]):
+                for x in ast.walk(t):
+                    if isinstance(x, ast.Name):
+                        g.add(x.id)
     for n in tree.body:
         if isinstance(n, ast.FunctionDef):
             public = n.name in exported and not n.name.startswith('_') and not internal
@@ -440,10 +447,18 @@ def collect(root, extra_sources=None):
     for c in sorted(table.classes):
         if c not in table.exported_classes:
             continue
-        for name in PUBLIC_METHODS:
+        names = set()
+        for d in table.mro(c):
+            names |= set(table.class_methods.get(d, {}))
+        for name in sorted(names):
             m = table.method_of(c, name, virtual=False)
-            if m:
-                m[0].public = True
+            if not m:
+                continue
+            fn = m[0]
+            # the estimator interface, constructors and __call__, and every other non-underscore method that takes an object
+            if name in PUBLIC_METHODS or name in ALSO_PUBLIC or \
+                    (not name.startswith('_') and any(p not in fn.scalar_params for p in fn.params)):
+                fn.public = True
     return table
 
 
@@ -474,6 +489,8 @@ class Lower(ast.NodeVisitor):
         self.attr_writes = set()    # attributes written in place by callees run on self
         self.unknown = []           # (line, text) of calls treated as unknown
         self.lines = {}             # statement position -> (source line, reason) of the in-place statements
+        self.containers = set()     # names bound to a new list / dict / set (an item of them is the stored object, not a copy)
+        self.callables = {}         # names bound to functions of the repository (or partial(...) of them)
         self.own = set()            # versions bound to an object created here (`[]`, `{}`, np.zeros(...), x.copy() ...)
         self.numeric = set()        # versions known to hold numeric arrays (an item store copies the value into them)
         self.externals = table.externals.get(fn.module, set())
@@ -528,7 +545,8 @@ class Lower(ast.NodeVisitor):
             return self.roots_of(node.value)
         if isinstance(node, ast.Subscript):
             self.roots_of(node.slice)
-            if self.is_fancy(node.slice):
+            if self.is_fancy(node.slice) and not (isinstance(node.value, ast.Name) and
+                                                  (node.value.id in self.fn.dict_params or node.value.id in self.containers)):
                 self.roots_of(node.value)
                 return []      # advanced indexing copies
             return self.roots_of(node.value)
@@ -564,8 +582,9 @@ class Lower(ast.NodeVisitor):
             self.lower_lambda(node)
             return []
         if isinstance(node, ast.BinOp):
-            self.roots_of(node.left)
-            self.roots_of(node.right)
+            l, r = self.roots_of(node.left), self.roots_of(node.right)
+            if self.is_new_container(node) or any(isinstance(x, ast.Name) and x.id in self.containers for x in (node.left, node.right)):
+                return l + r        # [x] * 2, [] + [x], l + [x]: the new list holds the same objects
             return []
         if isinstance(node, ast.UnaryOp):
             self.roots_of(node.operand)
@@ -649,6 +668,24 @@ class Lower(ast.NodeVisitor):
                 self.stmts.append(('bind', rec['vararg'], ('alias', sorted(set(extra)))))
 
     # ---- calls ----------------------------------------------------------------------------------------
+    def fn_values(self, node):
+        """the functions of the repository an expression used *as a value* may denote (map(f, xs), partial(f, a),
+        pool.map(self.step, xs) ...): their summaries are applied to every other argument of the call they are passed to"""
+        if isinstance(node, ast.Name):
+            if node.id in self.callables:
+                return self.callables[node.id]
+            if node.id not in self.cur and node.id not in self.nested:
+                return self.table.resolve(node.id) or []
+            return []
+        if isinstance(node, ast.Attribute) and node.attr not in VIEW_ATTRS and node.attr not in SCALAR_ATTRS:
+            cls = self.class_of(node.value)
+            if cls is not None:
+                return self.table.method_of(cls, node.attr) or []
+            return self.table.methods_named(node.attr)
+        if isinstance(node, ast.Call) and isinstance(node.func, ast.Name) and node.func.id == 'partial' and node.args:
+            return self.fn_values(node.args[0])
+        return []
+
     def is_external_base(self, node):
         """`np`, `np.random`, `sparse.csgraph` ... : an attribute chain rooted at a name imported from outside"""
         while isinstance(node, ast.Attribute):
@@ -665,6 +702,16 @@ class Lower(ast.NodeVisitor):
         result = []
         # function-valued arguments: their parameters may receive any other argument of this call
         for a in list(node.args) + [k.value for k in node.keywords]:
+            fv = self.fn_values(a)
+            if fv:
+                others = [r for r in arg_roots]
+                for c in fv:
+                    if c.writes:
+                        self.mutate(others, 'passed with %s, which writes %s' % (c.qual, [c.params[p] for p in sorted(c.writes) if p < len(c.params)]))
+                    if c.ret_alias:
+                        result += others
+                    if c.attr_writes and isinstance(a, ast.Attribute) and isinstance(a.value, ast.Name) and a.value.id == 'self':
+                        self.attr_writes |= c.attr_writes
             rec = None
             if isinstance(a, ast.Lambda):
                 rec = self.lower_lambda(a)
@@ -686,6 +733,8 @@ class Lower(ast.NodeVisitor):
         return result + self.unknown_call(node, recv + arg_roots)
 
     def unknown_call(self, node, roots):
+        if self.fn.cls and any(isinstance(a, ast.Name) and a.id == 'self' for a in list(node.args) + [k.value for k in node.keywords]):
+            self.attr_writes.add('*')
         self.unknown.append((self.line, ast.unparse(node.func)[:60]))
         self.mutate(roots, 'unknown call ' + ast.unparse(node.func)[:40])
         return list(roots)
@@ -723,6 +772,14 @@ class Lower(ast.NodeVisitor):
                     amap.setdefault(j, []).extend(allr)
             for p in c.writes:
                 self.mutate(amap.get(p, []), 'callee %s writes %s' % (c.qual, c.params[p]))
+            # `self` handed to a function that writes through that parameter: any attribute of self may be written
+            for i, a in enumerate(node.args):
+                if isinstance(a, ast.Name) and a.id == 'self' and self.fn.cls and (i - shift) in c.writes and (i - shift) >= 0:
+                    self.attr_writes.add('*')
+            for k in node.keywords:
+                if isinstance(k.value, ast.Name) and k.value.id == 'self' and self.fn.cls and k.arg in c.params \
+                        and c.params.index(k.arg) in c.writes:
+                    self.attr_writes.add('*')
             for p in c.ret_alias:
                 out += amap.get(p, [])
         return out
@@ -769,6 +826,9 @@ class Lower(ast.NodeVisitor):
         if name in VIEW_FUNCS:
             if name.endswith(('_matrix', '_array')) and _kw_true(node, 'copy'):
                 return result
+            if name in ('csr_matrix', 'csc_matrix', 'csr_array', 'csc_array') and node.args and isinstance(node.args[0], ast.Tuple) \
+                    and len(node.args[0].elts) == 2 and isinstance(node.args[0].elts[1], ast.Tuple):
+                return result       # (data, (row, col)): built through COO and converted, new buffers (self-tested)
             return result + first
         if name in PURE_FUNCS or name in PURE_BUILTINS:
             return result
@@ -778,6 +838,11 @@ class Lower(ast.NodeVisitor):
 
     def call_attr(self, node, f, pos_roots, kw_roots, arg_roots):
         name = f.attr
+        # np.ndarray.method(x, ...): the method, applied to its first argument
+        if isinstance(f.value, ast.Attribute) and f.value.attr in ('ndarray', 'matrix', 'csr_matrix', 'spmatrix') and self.is_external_base(f.value) \
+                and pos_roots:
+            rest = [r for rs in pos_roots[1:] for r in rs] + [r for rs in kw_roots.values() for r in rs]
+            return self.table_method(node, name, pos_roots[0], pos_roots[1:], kw_roots, rest, receiver_node=node.args[0])
         # module.function(...)
         if self.is_external_base(f.value):
             if name == 'at' and isinstance(f.value, ast.Attribute) and f.value.attr in UFUNCS:
@@ -814,13 +879,16 @@ class Lower(ast.NodeVisitor):
             return []
         return self.table_method(node, name, recv, pos_roots, kw_roots, arg_roots)
 
-    def table_method(self, node, name, recv, pos_roots, kw_roots, arg_roots):
+    def table_method(self, node, name, recv, pos_roots, kw_roots, arg_roots, receiver_node=None):
         """a method of an object whose class is unknown: the tables, joined with every repository method of that name"""
         known = False
         result = []
         if name in INPLACE_METHODS:
             known = True
-            if not self.own_object(node.func.value):
+            rnode = receiver_node if receiver_node is not None else node.func.value
+            if name in ADDERS and self.is_global_state(rnode):
+                self.mutate(arg_roots, 'stored in class / module state')
+            if not self.own_object(rnode):
                 self.mutate(recv, 'in-place method ' + name)
             if name in ADDERS and arg_roots:
                 for r in recv:      # the receiver now holds (aliases of) the arguments
@@ -879,6 +947,12 @@ class Lower(ast.NodeVisitor):
         if isinstance(node, ast.Call):
             f = node.func
             nm = f.attr if isinstance(f, ast.Attribute) else (f.id if isinstance(f, ast.Name) else '')
+            if nm in INDEX_ARRAY_MAKERS_WITH_SIZE:
+                return any(k.arg == 'size' for k in node.keywords) or len(node.args) >= 2
+            if nm in ('array', 'asarray', 'astype', 'ravel') and isinstance(f, ast.Attribute):
+                # np.array([..]) / idx.astype(int) / idx.ravel(): an array when built from a list or from an index array
+                src = node.args[0] if nm in ('array', 'asarray') and node.args else f.value
+                return self.is_index_array(src)
             return nm in INDEX_ARRAY_MAKERS
         if isinstance(node, ast.UnaryOp):
             return self.is_index_array(node.operand)
@@ -886,8 +960,8 @@ class Lower(ast.NodeVisitor):
             return self.is_index_array(node.left) or self.is_index_array(node.right)
         if isinstance(node, ast.BoolOp):
             return any(self.is_index_array(v) for v in node.values)
-        if isinstance(node, ast.Subscript):
-            return self.is_index_array(node.value) and not self.is_scalar_expr(node.slice)
+        if isinstance(node, ast.Subscript):      # a slice or a fancy selection of an index array is an index array, an element is not
+            return self.is_index_array(node.value) and (isinstance(node.slice, ast.Slice) or self.is_index_array(node.slice))
         return False
 
     def is_fancy(self, sl):
@@ -927,6 +1001,15 @@ class Lower(ast.NodeVisitor):
             self.own.add(x)
         self.cur[name] = {x}
         return x
+
+    def is_global_state(self, node):
+        """an attribute / item chain rooted at a class of the repository or at a module-level variable: state that
+        outlives the call — whatever is stored there is treated as written (anybody may write it later)"""
+        while isinstance(node, (ast.Attribute, ast.Subscript)):
+            node = node.value
+        if not isinstance(node, ast.Name) or node.id in self.cur or node.id in self.scalars or node.id == 'self':
+            return False
+        return node.id in self.table.classes or node.id in self.table.module_globals.get(self.fn.module, ())
 
     def own_object(self, node):
         """a plain name all of whose live versions are objects created in this function: an in-place change of the
@@ -977,7 +1060,9 @@ class Lower(ast.NodeVisitor):
             if value is not None and self.is_new_container(value):
                 self.own.add(self.assign_name(tgt.id, value_roots))      # a new list / dict / set holding (aliases of) its elements
                 self.arrays.discard(tgt.id)
+                self.containers.add(tgt.id)
                 return
+            self.containers.discard(tgt.id)
             if value is not None and self.is_index_array(value):
                 self.arrays.add(tgt.id)
             else:
@@ -992,16 +1077,25 @@ class Lower(ast.NodeVisitor):
             if isinstance(tgt.value, ast.Name) and tgt.value.id == 'self' and self.fn.cls:
                 x = self.assign_name('self.' + tgt.attr, value_roots)
                 self.attr_binds.append((tgt.attr, x))
-                if tgt.attr in self.hot and value_roots:
+                if (tgt.attr in self.hot or '*' in self.hot) and value_roots:
                     # some method of the class family writes self.<attr> in place: whoever stores a caller's
                     # object there is charged with that write
                     self.stmts.append(('mutate', x))
             else:
-                # x.attr = ... on an object that is not self: an in-place change of that object
-                self.mutate(self.roots_of(tgt.value))
+                # x.attr = ... on an object that is not self: an in-place change of that object, which then holds the value
+                if self.is_global_state(tgt.value):
+                    self.mutate(value_roots, 'stored in class / module state')
+                roots = self.roots_of(tgt.value)
+                if not self.own_object(tgt.value):       # an object created here is ours to change; what it holds is tracked below
+                    self.mutate(roots, 'attribute assignment')
+                if value_roots:
+                    for r in roots:
+                        self.stmts.append(('bind', r, ('alias', sorted(set(value_roots)))))
         elif isinstance(tgt, ast.Subscript):
             self.roots_of(tgt.slice)
             roots = self.roots_of(tgt.value)
+            if self.is_global_state(tgt.value):
+                self.mutate(value_roots, 'stored in class / module state')
             if not self.own_object(tgt.value):
                 self.mutate(roots, 'item assignment')
             if value_roots:     # a list / dict / object array now holds (an alias of) the value; a numeric array copies it
@@ -1019,6 +1113,13 @@ class Lower(ast.NodeVisitor):
         roots = self.roots_of(node.value)
         cls = self.class_of(node.value)
         sp = self.is_sparse_expr(node.value)
+        fv = self.fn_values(node.value) if isinstance(node.value, (ast.Name, ast.Attribute, ast.Call)) else []
+        for t in node.targets:
+            if isinstance(t, ast.Name):
+                if fv and not (isinstance(node.value, ast.Call) and not (isinstance(node.value.func, ast.Name) and node.value.func.id == 'partial')):
+                    self.callables[t.id] = fv
+                else:
+                    self.callables.pop(t.id, None)
         num = self.is_numeric_expr(node.value)
         for t in node.targets:
             self.bind_target(t, roots, node.value)
@@ -1153,8 +1254,14 @@ class Lower(ast.NodeVisitor):
         if isinstance(it, ast.Call) and isinstance(it.func, ast.Name) and it.func.id == 'range':
             for n in ast.walk(node.target):
                 if isinstance(n, ast.Name):
-                    self.scalars.add(n.id)
-                    self.cur.pop(n.id, None)
+                    if n.id in self.cur and n.id not in self.scalars:
+                        # the name already holds an object (a parameter): after zero iterations it still does
+                        keep = set(self.cur[n.id])
+                        self.assign_name(n.id, [])
+                        self.cur[n.id] |= keep
+                    else:
+                        self.scalars.add(n.id)
+                        self.cur.pop(n.id, None)
             roots = None
         if roots is not None:
             self.bind_target(node.target, roots)
@@ -1420,6 +1527,10 @@ def self_test():
     checks['csr_matrix(csr) shares'] = sm(sparse.csr_matrix(a).data, a.data)
     checks['csr_matrix(csr, copy=True) copies'] = not sm(sparse.csr_matrix(a, copy=True).data, a.data)
     checks['tocsr of csr is self'] = a.tocsr() is a
+    w = np.array([1., 2.])
+    checks['csr_matrix((data, (row, col))) copies'] = not sm(sparse.csr_matrix((w, ([0, 0], [1, 1])), shape=(2, 2)).data, w) and \
+        not sm(sparse.csc_matrix((w, ([0, 0], [1, 1])), shape=(2, 2)).data, w)
+    checks['coo_matrix((data, (row, col))) shares'] = sm(sparse.coo_matrix((w, ([0, 0], [1, 1])), shape=(2, 2)).data, w)
     checks['tocsc of csc is self'] = (lambda c: c.tocsc() is c)(a.tocsc())
     checks['tocoo of coo is self'] = (lambda c: c.tocoo() is c)(a.tocoo())
     checks['tolil of lil is self'] = (lambda c: c.tolil() is c)(a.tolil())
@@ -1528,6 +1639,28 @@ NEGATIVE_TESTS = [
     ('control: data attribute', {'t.py': 'def f(input_matrix):\n    input_matrix.data *= 2\n    return 0\n'}, 't.f', False),
     ('control: astype(copy=False)', {'t.py': 'def f(x):\n    v = x.astype(float, copy=False)\n    v[0] = 0\n    return 0\n'}, 't.f', False),
     ('control: in-place method', {'t.py': 'def f(x):\n    x.sort()\n    return 0\n'}, 't.f', False),
+    # second review (M3): probes P15, P4, P62, P14, P78 / P30, P1, P27, P28, P25, P41
+    ('P15 repository function passed to map', {'t.py': 'def helper(x):\n    x[0] = 0\ndef f(rows):\n    list(map(helper, rows))\n    return 0\n'}, 't.f', False),
+    ('P15 partial + pool.map', {'t.py': 'from functools import partial\nfrom multiprocessing import Pool\ndef helper(adjacency, seed):\n    adjacency.data[:] = seed\ndef f(adjacency, seeds):\n    with Pool(2) as pool:\n        out = pool.map(partial(helper, adjacency), seeds)\n    return out\n'}, 't.f', False),
+    ('P15 partial bound to a name', {'t.py': 'from functools import partial\ndef helper(adjacency, seed):\n    seed[0] = 1\ndef f(adjacency, seeds, pool):\n    local = partial(helper, adjacency)\n    return pool.map(local, seeds)\n'}, 't.f', False),
+    ('P15 bound method passed to map', {'t.py': 'class Est:\n    def step(self, row):\n        row[0] = 0\n    def fit(self, rows):\n        list(map(self.step, rows))\n        return self\n'}, 't.Est.fit', False),
+    ('P4 attribute store on another object', {'t.py': 'class Box:\n    pass\ndef f(labels):\n    o = Box()\n    o.l = labels\n    o.l[0] = 1\n    return 0\n'}, 't.f', False),
+    ('P4 attribute store then augmented assignment', {'t.py': 'class Est:\n    pass\ndef f(labels):\n    e = Est()\n    e.labels_ = labels\n    e.labels_ += 1\n    return e\n'}, 't.f', False),
+    ('P62 self handed to a writer', {'t.py': 'def helper(est):\n    est.adjacency.data[:] = 0\nclass Est:\n    def fit(self, adjacency):\n        self.adjacency = adjacency\n        helper(self)\n        return self\n'}, 't.Est.fit', False),
+    ('P14 list * 2', {'t.py': 'def f(position_init):\n    l = [position_init] * 2\n    l[0][0] = 0.\n    return 0\n'}, 't.f', False),
+    ('P14 list + list', {'t.py': 'def f(position_init):\n    l = [] + [position_init]\n    l[0][0] = 0.\n    return 0\n'}, 't.f', False),
+    ('P78 class-level state', {'t.py': 'class E:\n    cache = []\ndef f(x):\n    E.cache.append(x)\n    E.cache[0][0] = 0\n    return 0\n'}, 't.f', False),
+    ('P30 module-level state', {'t.py': 'CACHE = {}\ndef f(x):\n    CACHE[0] = x\n    CACHE[0][0] = 0\n    return 0\n'}, 't.f', False),
+    ('P1 random scalar index', {'t.py': 'import numpy as np\ndef f(x):\n    i = np.random.choice(len(x))\n    row = x[i]\n    row[0] = 0.\n    return 0\n'}, 't.f', False),
+    ('P1b element of an index array', {'t.py': 'import numpy as np\ndef f(x, order):\n    idx = np.argsort(order)\n    for k in order:\n        row = x[idx[k]]\n        row[0] = 0.\n    return 0\n'}, 't.f', False),
+    ('P27 constant default', {'t.py': 'def f(weights=1):\n    weights[0] = 0\n    return 0\n'}, 't.f', False),
+    ('P27 Union[int, list] default', {'t.py': 'from typing import Union\ndef f(source: Union[int, list] = 0):\n    source[0] = 0\n    return 0\n'}, 't.f', False),
+    ('P28 range variable shadows a parameter', {'t.py': 'def f(i):\n    for i in range(0):\n        pass\n    i[0] = 1\n    return 0\n'}, 't.f', False),
+    ('P25 np.ndarray.sort', {'t.py': 'import numpy as np\ndef f(x):\n    np.ndarray.sort(x)\n    return 0\n'}, 't.f', False),
+    ('P41 item of a dict', {'t.py': 'import numpy as np\ndef f(d: dict, k: np.ndarray):\n    v = d[k]\n    v[0] = 0\n    return 0\n'}, 't.f', False),
+    ('constructor that writes its argument', {'t.py': 'class Op:\n    def __init__(self, adjacency):\n        adjacency.data[:] = 1\n        self.n = 1\n'}, 't.Op.__init__', False),
+    ('ok: map of a pure repository function', {'t.py': 'def helper(x):\n    return x.sum()\ndef f(rows):\n    return list(map(helper, rows))\n'}, 't.f', True),
+    ('ok: index array from argsort copies', {'t.py': 'import numpy as np\ndef f(x, order):\n    idx = np.argsort(order)\n    v = x[idx[1:]]\n    v[0] = 0\n    return 0\n'}, 't.f', True),
     # the same shapes with a copy first are accepted (the tests above are not vacuous)
     ('ok: copy then write', {'t.py': 'def f(position_init):\n    position = position_init.copy()\n    position[0] = 0\n    position -= 1\n    return position\n'}, 't.f', True),
     ('ok: astype then write', {'t.py': 'def f(input_matrix):\n    m = input_matrix.astype(float)\n    m.data[:] = 1\n    m *= 2\n    return m\n'}, 't.f', True),
